@@ -992,6 +992,165 @@ func sigWith(r *hx.Rand, ty byte, hashedArea bool) []byte {
 	return append(out, mpi(r, 9)...)
 }
 
+// ---- hand-built legacy packets and the full 0..255 sweep of every one-octet selector the parsers switch on
+
+func sigV3(r *hx.Rand, version, hlen, typ, pk, hash byte) []byte {
+	b := []byte{version, hlen, typ}
+	b = append(b, be32(1300000000)...)
+	b = append(b, be64(0xA34D7E18C20C31BB)...)
+	b = append(b, pk, hash, 0xab, 0xcd)
+	b = append(b, mpi(r, 1024)...)
+	return append(b, mpi(r, 160)...) // a second MPI for the two-integer algorithms
+}
+
+func keyV3(r *hx.Rand, version, algo byte) []byte {
+	b := append([]byte{version}, be32(1200000000)...)
+	b = append(b, 0, 30, algo) // validity days, algorithm
+	n := r.Bytes(128)
+	n[0] |= 0x80
+	n[127] |= 1
+	b = append(b, 0x04, 0x00)
+	b = append(b, n...)
+	return append(b, 0, 17, 1, 0, 1)
+}
+
+// body of packet number i (counting from 0) with the given tag in a seed
+func seedBody(name string, tag, i int) []byte {
+	d := seedBy[name].data
+	if seedBy[name].txt {
+		d = dearmor(d)
+	}
+	for _, p := range walk(d) {
+		if p.tag == tag {
+			if i == 0 {
+				return append([]byte(nil), d[p.bodyStart:p.end]...)
+			}
+			i--
+		}
+	}
+	return nil
+}
+
+func selectorSweep(g *hx.Gen) {
+	r := g.R
+	tokInit()
+	pwHex := hx.Hex([]byte("password"))
+	emit := func(field string, entry string, d []byte) {
+		g.Stat("sweep." + field)
+		switch entry {
+		case "det":
+			g.Emit("det signed=78 data=%s", hx.Hex(d))
+		case "kr":
+			g.Emit("kr data=%s", hx.Hex(d))
+		default:
+			g.Emit("msg kr=priv prompt=fn pw=%s,%s data=%s", pwHex, hx.Hex([]byte("passphrase")), hx.Hex(d))
+		}
+	}
+	keyPrefix := append(append([]byte(nil), tokPkt["P1"]...), tokPkt["U1"]...)
+	lit := opaque(11, []byte{'b', 0, 0, 0, 0, 0, 'x'})
+	ops := func(b []byte) []byte { return opaque(4, b) }
+	opsBody := append(append([]byte{3, 0, 2, 1}, be64(0xA34D7E18C20C31BB)...), 1)
+	sigCtx := func(field string, sig []byte) { // a signature packet reaches all three kinds of entry point
+		emit(field, "det", sig)
+		emit(field, "kr", append(append([]byte(nil), keyPrefix...), sig...))
+		emit(field, "msg", append(append(ops(opsBody), lit...), sig...))
+	}
+	v4 := sigWith(r, 16, true)
+	privBody := seedBody("private_key.privKeyRSAHex", 5, 0)
+	usageOff := -1
+	if len(privBody) > 8 { // version, time, algo, MPI n, MPI e, then the S2K usage octet
+		i := 6
+		for k := 0; k < 2 && i+2 <= len(privBody); k++ {
+			i += 2 + (int(privBody[i])<<8|int(privBody[i+1])+7)/8
+		}
+		if i+4 < len(privBody) {
+			usageOff = i
+		}
+	}
+	ecKey := seedBody("read.p256TestKeyHex", 6, 0)
+	rsaKey := seedBody("read.testKeys1And2Hex", 6, 0)
+	skesk := seedBody("symmetric_key_encrypted.symmetricallyEncryptedHex", 3, 0)
+	pkesk := seedBody("read.signedEncryptedMessageHex", 1, 0)
+	var ownSym []byte
+	for _, m := range ownMessages(r) {
+		if len(m) > 0 && m[0] == 0xC3 && len(m) < 400 {
+			ownSym = m
+			break
+		}
+	}
+	for v := 0; v < 256; v++ {
+		b := byte(v)
+		// v2/v3 signatures (SignatureV3.parse)
+		sigCtx("sigv3.version", opaque(2, sigV3(r, b, 5, 0, 1, 2)))
+		sigCtx("sigv3.hashed-len", opaque(2, sigV3(r, 3, b, 0, 1, 2)))
+		sigCtx("sigv3.pkalgo", opaque(2, sigV3(r, 3, 5, 0, b, 2)))
+		sigCtx("sigv2.pkalgo", opaque(2, sigV3(r, 2, 5, 1, b, 8)))
+		sigCtx("sigv3.hash", opaque(2, sigV3(r, 3, 5, 0, 17, b)))
+		sigCtx("sigv3.type", opaque(2, sigV3(r, 3, 5, b, 1, 2)))
+		// v4 signatures
+		for off, f := range []string{"sigv4.version", "sigv4.type", "sigv4.pkalgo", "sigv4.hash"} {
+			m := append([]byte(nil), v4...)
+			m[off] = b
+			sigCtx(f, opaque(2, m))
+		}
+		// keys: version, algorithm, curve OID length, v3 keys
+		for off, f := range map[int]string{0: "key.version", 5: "key.algo"} {
+			m := append([]byte(nil), rsaKey...)
+			m[off] = b
+			emit(f, "kr", append(append(opaque(6, m), tokPkt["U1"]...), tokPkt["S1"]...))
+		}
+		if len(ecKey) > 7 {
+			m := append([]byte(nil), ecKey...)
+			m[6] = b
+			emit("key.oid-len", "kr", opaque(6, m))
+			m2 := append([]byte(nil), ecKey...)
+			m2[5] = b
+			emit("eckey.algo", "kr", opaque(6, m2))
+		}
+		emit("keyv3.algo", "kr", append(opaque(6, keyV3(r, 3, b)), tokPkt["U1"]...))
+		emit("keyv3.version", "kr", append(opaque(6, keyV3(r, b, 1)), tokPkt["U1"]...))
+		if usageOff > 0 {
+			for k, f := range []string{"privkey.s2k-usage", "privkey.cipher", "privkey.s2k-mode", "privkey.s2k-hash"} {
+				m := append([]byte(nil), privBody...)
+				m[usageOff+k] = b
+				emit(f, "kr", append(opaque(5, m), tokPkt["U1"]...))
+			}
+		}
+		// message packets
+		if len(skesk) > 4 {
+			for off, f := range []string{"skesk.version", "skesk.cipher", "skesk.s2k-mode", "skesk.s2k-hash"} {
+				m := append([]byte(nil), skesk...)
+				m[off] = b
+				emit(f, "msg", append(opaque(3, m), opaque(18, append([]byte{1}, r.Bytes(40)...))...))
+			}
+		}
+		if len(pkesk) > 10 {
+			for off, f := range map[int]string{0: "pkesk.version", 9: "pkesk.algo"} {
+				m := append([]byte(nil), pkesk...)
+				m[off] = b
+				emit(f, "msg", append(opaque(1, m), opaque(18, append([]byte{1}, r.Bytes(40)...))...))
+			}
+		}
+		emit("compressed.algo", "msg", opaque(8, append([]byte{b}, lit...)))
+		for off, f := range []string{"ops.version", "ops.sigtype", "ops.hash", "ops.pkalgo"} {
+			m := append([]byte(nil), opsBody...)
+			m[off] = b
+			emit(f, "msg", append(append(ops(m), lit...), opaque(2, v4)...))
+		}
+		emit("literal.format", "msg", opaque(11, []byte{b, 1, 'n', 0, 0, 0, 0, 'x'}))
+		if len(ownSym) > 40 { // version octet of the encrypted-data packet of a real message; and a tag-9 (no MDC) packet
+			ps := walk(ownSym)
+			if len(ps) >= 2 && ps[1].tag == 18 && ps[1].bodyStart > 0 {
+				m := append([]byte(nil), ownSym...)
+				m[ps[1].bodyStart] = b
+				emit("seipd.version", "msg", m)
+			}
+			emit("se-nomdc.first", "msg", append(append([]byte(nil), ownSym[:ps[0].end]...), opaque(9, append([]byte{b}, r.Bytes(30)...))...))
+		}
+		emit("uattr.subtype", "kr", append(append(append([]byte(nil), keyPrefix...), tokPkt["S1"]...), opaque(17, []byte{3, b, 1, 2})...))
+	}
+}
+
 func genSig(g *hx.Gen) {
 	r := g.R
 	st := byte(r.PickInt(0, 1, 0x10, 0x13, 0x18, 0x19, 0x20))
@@ -1847,7 +2006,8 @@ func gen(g *hx.Gen) {
 			}
 		}
 	}
-	n := g.Count(8500, 150000)
+	selectorSweep(g)
+	n := g.Count(5000, 150000)
 	r := g.R
 	for i := 0; i < n; i++ {
 		if r.Chance(1, 400) {
